@@ -6,12 +6,14 @@
   `Bundle.bundle ps` (any list of part models, nested Bundles are lists containing `bundle qs`),
   `Bundle.psum` (= `utils::array_psum`), `Tn.model n` (detail/tn.hpp = lie_groups/rn.hpp =
   lie_groups/scalar.hpp for n = 1).  Helper lemmas: SmoothProofs/C06Base, C06Prod, C06List,
-  C06Hess, C06Flatten.
+  C06Hess, C06Flatten, C06Iso, C06Assoc, C06Desc.
 
   Everything that involves no arithmetic is stated over ANY `[Scalar α]` (hence also for the
   executable `Float`/`Float32` instances); the Hessian placement needs `x + 0 = x` and is over ℝ.
 -/
 import SmoothProofs.C06Hess
+import SmoothProofs.C06Flatten
+import SmoothProofs.C06Desc
 
 open Lin Scalar
 set_option linter.unusedSectionVars false
@@ -250,6 +252,80 @@ theorem bundle_comm : (Bundle.bundle ps).comm = ps.all LieModel.comm := by
 
 end list
 
+/-! ## 2b. Nested Bundles have the coefficient layout — and the operations — of the flattened list -/
+section nested
+
+/-- layout (any `[Scalar α]`, each of the three size functions): equal totals; leaf `j` of the
+    nested Bundle starts at the flat offset of leaf `|ps| + j` of the flattened list; the parts
+    after the nested Bundle keep their offsets -/
+theorem flatten_coeffs_layout (ps qs rs : List (LieModel α)) (j k : Nat) (hj : j ≤ qs.length) :
+    ((Bundle.bundle (ps ++ Bundle.bundle qs :: rs)).rep = (Bundle.bundle (ps ++ (qs ++ rs))).rep ∧
+     (Bundle.bundle (ps ++ Bundle.bundle qs :: rs)).dof = (Bundle.bundle (ps ++ (qs ++ rs))).dof ∧
+     (Bundle.bundle (ps ++ Bundle.bundle qs :: rs)).dim = (Bundle.bundle (ps ++ (qs ++ rs))).dim) ∧
+    (offs LieModel.rep (ps ++ Bundle.bundle qs :: rs) ps.length + offs LieModel.rep qs j
+        = offs LieModel.rep (ps ++ (qs ++ rs)) (ps.length + j) ∧
+     offs LieModel.dof (ps ++ Bundle.bundle qs :: rs) ps.length + offs LieModel.dof qs j
+        = offs LieModel.dof (ps ++ (qs ++ rs)) (ps.length + j) ∧
+     offs LieModel.dim (ps ++ Bundle.bundle qs :: rs) ps.length + offs LieModel.dim qs j
+        = offs LieModel.dim (ps ++ (qs ++ rs)) (ps.length + j)) ∧
+    (offs LieModel.rep (ps ++ Bundle.bundle qs :: rs) (ps.length + (1 + k))
+        = offs LieModel.rep (ps ++ (qs ++ rs)) (ps.length + (qs.length + k)) ∧
+     offs LieModel.dof (ps ++ Bundle.bundle qs :: rs) (ps.length + (1 + k))
+        = offs LieModel.dof (ps ++ (qs ++ rs)) (ps.length + (qs.length + k)) ∧
+     offs LieModel.dim (ps ++ Bundle.bundle qs :: rs) (ps.length + (1 + k))
+        = offs LieModel.dim (ps ++ (qs ++ rs)) (ps.length + (qs.length + k))) :=
+  ⟨⟨flatten_size sizeFn_rep ps qs rs, flatten_size sizeFn_dof ps qs rs, flatten_size sizeFn_dim ps qs rs⟩,
+   ⟨flatten_offs_inside ps qs rs j hj, flatten_offs_inside ps qs rs j hj, flatten_offs_inside ps qs rs j hj⟩,
+   ⟨flatten_offs_after sizeFn_rep ps qs rs k, flatten_offs_after sizeFn_dof ps qs rs k,
+    flatten_offs_after sizeFn_dim ps qs rs k⟩⟩
+
+/-- `flatten_coeffs` (ℝ): `Bundle (ps ++ [Bundle qs] ++ rs)` IS `Bundle (ps ++ qs ++ rs)` with every
+    vector and matrix relabelled index for index (`LayoutIso`, SmoothProofs/C06Iso.lean): same sizes,
+    same `IsCommutative`, and each of the 14 operations computes the same entries at the same flat
+    positions -/
+theorem flatten_coeffs (ps qs rs : List (LieModel ℝ)) :
+    LayoutIso (Bundle.bundle (ps ++ Bundle.bundle qs :: rs)) (Bundle.bundle (ps ++ (qs ++ rs))) :=
+  flatten_iso ps qs rs
+
+/-- the product of two Bundles is the Bundle of the concatenation; products associate -/
+theorem bundle_append_iso (qs rs : List (LieModel ℝ)) :
+    LayoutIso (Bundle.prod (Bundle.bundle qs) (Bundle.bundle rs)) (Bundle.bundle (qs ++ rs)) :=
+  bundle_append qs rs
+
+theorem prod_assoc_iso (A B C : LieModel ℝ) :
+    LayoutIso (Bundle.prod (Bundle.prod A B) C) (Bundle.prod A (Bundle.prod B C)) :=
+  prod_assoc A B C
+
+/-- nesting to ANY depth, for every descriptor list of the language used by driver and harness:
+    `B[…]` is `LayoutIso` to the flat Bundle of its leaves -/
+theorem flatten_all_depths (ds : List GDesc) :
+    LayoutIso (Bundle.bundle (GDesc.models ds : List (LieModel ℝ)))
+      (Bundle.bundle (GDesc.models (GDesc.leavesL ds))) :=
+  GDesc.flatten_all ds
+
+/-- spelled out for composition and for the Hessian: entry `k` of the nested result is entry `k`
+    of the flat result on the relabelled inputs -/
+theorem flatten_composition (ps qs rs : List (LieModel ℝ))
+    (a b : Vec ℝ (Bundle.bundle (ps ++ Bundle.bundle qs :: rs)).rep)
+    (k : Fin (Bundle.bundle (ps ++ Bundle.bundle qs :: rs)).rep) :
+    (Bundle.bundle (ps ++ Bundle.bundle qs :: rs)).composition a b k =
+      (Bundle.bundle (ps ++ (qs ++ rs))).composition
+        (reidx (flatten_coeffs ps qs rs).sizes.1 a) (reidx (flatten_coeffs ps qs rs).sizes.1 b)
+        ⟨k.val, by have := (flatten_coeffs ps qs rs).sizes.1; omega⟩ :=
+  (flatten_coeffs ps qs rs).composition_eq a b k
+
+theorem flatten_d2r_exp (ps qs rs : List (LieModel ℝ))
+    (a : Vec ℝ (Bundle.bundle (ps ++ Bundle.bundle qs :: rs)).dof)
+    (i : Fin (Bundle.bundle (ps ++ Bundle.bundle qs :: rs)).dof)
+    (c : Fin ((Bundle.bundle (ps ++ Bundle.bundle qs :: rs)).dof * (Bundle.bundle (ps ++ Bundle.bundle qs :: rs)).dof)) :
+    (Bundle.bundle (ps ++ Bundle.bundle qs :: rs)).d2r_exp a i c =
+      (Bundle.bundle (ps ++ (qs ++ rs))).d2r_exp (reidx (flatten_coeffs ps qs rs).sizes.2.1 a)
+        ⟨i.val, by have := (flatten_coeffs ps qs rs).sizes.2.1; omega⟩
+        ⟨c.val, by have := sq_eq (flatten_coeffs ps qs rs).sizes.2.1; omega⟩ :=
+  (flatten_coeffs ps qs rs).d2r_exp_eq a i c
+
+end nested
+
 /-! ### Hessians of `Bundle.bundle ps`, ℝ -/
 section listHess
 variable (ps : List (LieModel ℝ))
@@ -420,6 +496,11 @@ example (a b : Vec ℝ (Bundle.bundle exampleParts).rep) :
       (Bundle.bundle [SE2.model, C1.model, SO3.model] : LieModel ℝ).composition
         (repPart exampleParts 2 (by decide) a) (repPart exampleParts 2 (by decide) b) :=
   bundle_part_composition exampleParts 2 (by decide) a b
+/-- nesting: `B[T2,B[SE2,B[C1,T1]],SO3]` has the leaves `T2,SE2,C1,T1,SO3` -/
+example : GDesc.leavesL [.tn 2, .bundle [.se2, .bundle [.c1, .tn 1]], .so3] = [.tn 2, .se2, .c1, .tn 1, .so3] := rfl
+example : LayoutIso (Bundle.bundle (GDesc.models [.tn 2, .bundle [.se2, .bundle [.c1, .tn 1]], .so3] : List (LieModel ℝ)))
+    (Bundle.bundle (GDesc.models [.tn 2, .se2, .c1, .tn 1, .so3])) :=
+  flatten_all_depths [.tn 2, .bundle [.se2, .bundle [.c1, .tn 1]], .so3]
 /-- an all-commutative Bundle (vectors, SO2, C1, nested) -/
 example : CommShortcut (Bundle.bundle [Tn.model 3, SO2.model, Bundle.bundle [C1.model, Tn.model 1]] : LieModel ℝ) :=
   bundle_commShortcut _ (by
